@@ -21,7 +21,7 @@ CONSTANTS AlphaName,  \* which alphabet: "all" | "q" (C11 quick) | "t" (C11 thor
 \* logins of every kind, second logins, obo from non-root and root, forged sender, version change).
 AlphaQ ==
   {MHi("A"), MHi("B"), MHi("bad")}
-  \cup {MLogin("basic", s) : s \in {"right", "wrong", "needscred", "suspended"}}
+  \cup {MLogin("basic", s) : s \in {"right", "wrong", "needscred"}}
   \cup {MLogin("token", s) : s \in {"right", "rightroot", "expired", "deleted", "nologin"}}
   \cup {MLogin("reset", "known"), MLogin("unknown", "x")}
   \cup {MAcc("new", "T", "basic", "none", "F", "none"), MAcc("new", "T", "basicR", "none", "F", "none"),
@@ -29,10 +29,10 @@ AlphaQ ==
   \cup {MTop("sub", "me", "none", "none"), MTop("sub", "grp", "none", "none"), MTop("sub", "grp", "none", "valid"),
         MTop("pub", "grp", "forged", "none"), MTop("pub", "grp", "forged", "valid"),
         MTop("get", "me", "desc", "none"), MTop("get", "me", "desc", "valid"),
-        MTop("leave", "grp", "none", "none"), MTop("del", "grp", "msg", "none"), MTop("note", "grp", "read", "none")}
+        MTop("leave", "grp", "none", "none"), MTop("note", "grp", "read", "none")}
 AlphaT == AlphaQ
   \cup {MHi("old"), MHi("empty")}
-  \cup {MLogin("basic", s) : s \in {"rightroot", "expired", "deleted", "malformed", "nouser"}}
+  \cup {MLogin("basic", s) : s \in {"rightroot", "expired", "suspended", "deleted", "malformed", "nouser"}}
   \cup {MLogin("token", s) : s \in {"wrong", "suspended", "needscred", "malformed"}}
   \cup {MLogin("reset", "malformed")}
   \cup {MAcc("new", "F", "basic", "none", "F", "none"), MAcc("new", "F", "basic", "none", "T", "lvl"),
@@ -41,7 +41,7 @@ AlphaT == AlphaQ
   \cup {MTop("sub", "usr", "none", "none"), MTop("sub", "new", "none", "none"), MTop("sub", "sys", "none", "none"),
         MTop("sub", "nogrp", "none", "none"), MTop("sub", "me", "none", "validroot"), MTop("leave", "me", "unsub", "none"),
         MTop("leave", "grp", "none", "valid"), MTop("pub", "sys", "forged", "none"), MTop("pub", "grp", "forged", "bad"),
-        MTop("get", "grp", "data", "none"), MTop("set", "grp", "tags", "none"), MTop("set", "me", "desc", "lvl"),
+        MTop("get", "grp", "data", "none"), MTop("set", "grp", "tags", "none"), MTop("del", "grp", "msg", "none"), MTop("set", "me", "desc", "lvl"),
         MTop("del", "grp", "topic", "none"), MTop("note", "me", "kp", "none"), MTop("note", "grp", "read", "valid")}
 AlphaSet == CASE AlphaName = "q" -> AlphaQ [] AlphaName = "t" -> AlphaT [] OTHER -> AllMsgs
 \* Messages are addressed by index in the printed histories.  TLC re-evaluates a definition that depends on a declared
@@ -73,6 +73,7 @@ EmitFull == EmitTag = "" \/ Len(hist) < MaxLen \/ PrintT(<<EmitTag, hist>>)
 
 \* the alphabet in index order, printed once so that the recorder can resolve the indices
 ASSUME EmitTag = "" \/ PrintT(<<"ALPHABET", Alphabet>>)
+ASSUME EmitTag # "WIT" \/ PrintT(<<"UNIVERSE", SetToSeq(AllMsgs)>>)
 \* sanity of the model itself: the state stays within its type
 TypeOK == /\ st.ver \in {"0", "A", "B"} /\ st.uid \in {"", "alice", "root", "new"} /\ st.lvl \in {"", "auth", "root"}
           /\ (st.uid = "") = (st.lvl = "")
